@@ -45,8 +45,10 @@ theorem roundNE_zero (f : Fmt) (den : Nat) : roundNE f 0 den = 0 := by
 /-- the table theorems give `FastTables` for every radix of a feature set -/
 theorem fastTables_of {S : SmallSet} {f : Fmt} (hpow : FloatPowStmt S f)
     (hlim : ∀ r ∈ S.radices, limitsOk S f r = true) (hint : IntPowStmt S)
-    {r : Nat} (hr : r ∈ S.radices) (hri : r ∈ S.intRadices) (hpos : 0 < r) : FastTables S f r :=
-  { pow := (hpow r hr).2, lim := hlim r hr, int := fun e he => ((hint r hri).2.2 e he).1, rpos := hpos }
+    {r : Nat} (hr : r ∈ S.radices) (hri : r ∈ S.intRadices) (hpos : 0 < r)
+    (hml : S.mantissaLimit f r ≤ S.f64MantissaLimit r) : FastTables S f r :=
+  { pow := (hpow r hr).2, lim := hlim r hr, int := fun e he => ((hint r hri).2.2 e he).1, rpos := hpos,
+    powSize := (hpow r hr).1, intSize := Int.lt_of_le_of_lt hml (hint r hri).2.1 }
 
 theorem lim_f64 {S : SmallSet} (h : ∀ r ∈ S.radices, (limitsOk S f32 r && limitsOk S f64 r) = true) :
     ∀ r ∈ S.radices, limitsOk S f64 r = true := fun r hr => by
@@ -62,17 +64,17 @@ theorem fastTables_decimal {S : SmallSet} (hS : IsSmallSet S) :
     FastTables S f64 10 ∧ FastTables S f32 10 := by
   rcases hS with h | h | h <;> subst h
   · exact ⟨fastTables_of small_f64_powers_default (lim_f64 limits_ok_default) small_int_powers_default
-        (by decide) (by decide) (by decide),
+        (by decide) (by decide) (by decide) (by decide),
       fastTables_of small_f32_powers_default (lim_f32 limits_ok_default) small_int_powers_default
-        (by decide) (by decide) (by decide)⟩
+        (by decide) (by decide) (by decide) (by decide)⟩
   · exact ⟨fastTables_of small_f64_powers_radix (lim_f64 limits_ok_radix) small_int_powers_radix
-        (by decide) (by decide) (by decide),
+        (by decide) (by decide) (by decide) (by decide),
       fastTables_of small_f32_powers_radix (lim_f32 limits_ok_radix) small_int_powers_radix
-        (by decide) (by decide) (by decide)⟩
+        (by decide) (by decide) (by decide) (by decide)⟩
   · exact ⟨fastTables_of small_f64_powers_compact (lim_f64 limits_ok_compact) small_int_powers_compact
-        (by decide) (by decide) (by decide),
+        (by decide) (by decide) (by decide) (by decide),
       fastTables_of small_f32_powers_compact (lim_f32 limits_ok_compact) small_int_powers_compact
-        (by decide) (by decide) (by decide)⟩
+        (by decide) (by decide) (by decide) (by decide)⟩
 
 /-- **C01.3 `fastPath_exact`** (decimal, binary64): whenever `Number::try_fast_path` answers `Some(v)` — normal
 or disguised fast path, any sign — `v` is the correctly rounded value of `mantissa · 10^exponent`.
@@ -87,6 +89,13 @@ theorem fastPath_exact_f32 {S : SmallSet} (hS : IsSmallSet S) (expBase : Nat) (n
     (h : FastPath.tryFastPath S FTy.f32 10 expBase n = .some v) :
     v = roundSigned f32 n.isNegative (powFrac 10 n.exponent n.mantissa).1 (powFrac 10 n.exponent n.mantissa).2 :=
   LexVerif.Proof.FastPathExact.fastPath_exact layout_f32 (fastTables_decimal hS).2 expBase n v h
+
+/-- the fast path never panics (checked table indices stay inside the tables) -/
+theorem fastPath_no_panic {S : SmallSet} (hS : IsSmallSet S) (F : FTy) (hF : F = FTy.f64 ∨ F = FTy.f32)
+    (expBase : Nat) (n : Num) : FastPath.tryFastPath S F 10 expBase n ≠ .panic := by
+  rcases hF with h | h <;> subst h
+  · exact LexVerif.Proof.FastPathExact.fastPath_no_panic (fastTables_decimal hS).1 expBase n
+  · exact LexVerif.Proof.FastPathExact.fastPath_no_panic (fastTables_decimal hS).2 expBase n
 
 /-- non-vacuity: the fast path does answer — normal (`12345e10`), division (`5e-3`), disguised (`-12345e30`,
 `max_exponent = 22`, shift 8), and declines a mantissa above `2^53` -/
@@ -195,6 +204,12 @@ theorem lemire_wrapper (F : FTy) (hF : IsLemireFloat F) (q : Int) (w : Nat) (neg
   obtain ⟨p, eb, sm, lg, a, b, LL, _⟩ := lemLayout_of hF
   exact LexVerif.Proof.Lemire.lemire_wrapper LL q w neg hq.1 hq.2 hw S0 S1 h hv num den hd hlo hhi
 
+/-- `compute_float` never panics: the checked index into `POWER_OF_FIVE_128` is always in range -/
+theorem computeFloat_no_panic (F : FTy) (hF : IsLemireFloat F) (q : Int) (w : Nat) (lossy : Bool) :
+    Lemire.computeFloat F q w lossy ≠ .panic := by
+  obtain ⟨p, eb, sm, lg, a, b, LL, _⟩ := lemLayout_of hF
+  exact LexVerif.Proof.Lemire.computeFloat_no_panic LL q w lossy
+
 /-- the wrapper instantiated on the proved domain: a truncated 19-digit mantissa at `0 ≤ q ≤ 27` -/
 theorem lemire_wrapper_exact_range (F : FTy) (hF : IsLemireFloat F) (q : Int) (hq0 : 0 ≤ q) (hq27 : q ≤ 27)
     (w : Nat) (neg : Bool) (hw : w + 1 < 2 ^ 64) {fp : ExtendedFloat80}
@@ -263,6 +278,12 @@ theorem bellerophon_sound_untruncated (F : FTy) (hF : IsLemireFloat F) (n : Num)
   rcases hF with h' | h' <;> subst h'
   · exact LexVerif.Proof.Bell.bellerophon_untruncated_sound layout_f64 (by decide) hc n hmany hw h hv
   · exact LexVerif.Proof.Bell.bellerophon_untruncated_sound layout_f32 (by decide) hc n hmany hw h hv
+
+/-- `bellerophon` never panics (remainder by `step`, three checked table indices) -/
+theorem bellerophon_no_panic (F : FTy) (n : Num) (lossy : Bool) :
+    Bellerophon.bellerophon F (Gen.Bellerophon.CompactRadix.powers 10) n lossy ≠ .panic :=
+  LexVerif.Proof.Bell.bellerophon_no_panic
+    (LexVerif.Proof.Bell.bellFacts_of (LexVerif.Proof.Bell.bellCheck_compact 10 (by decide))) n lossy
 
 /-- the hypothesis on truncated mantissas holds for what `parse_number` produces: 19 significant digits -/
 example : (2 : Nat) ^ 44 ≤ 10 ^ 18 := by decide
